@@ -137,7 +137,16 @@ func factsCodec(repo string, o *out) {
 				if !ok || !ok2 || sv.Kind != token.STRING {
 					die("SupportedVersions: unexpected element")
 				}
-				vers = append(vers, fmt.Sprintf("(%d, %s)", k, sv.Value))
+				name, err := strconv.Unquote(sv.Value)
+				if err != nil {
+					die("SupportedVersions: %v", err)
+				}
+				bs := make([]string, len(name))
+				for i := 0; i < len(name); i++ {
+					bs[i] = fmt.Sprintf("0x%02x", name[i])
+				}
+				// the protocol name as bytes (%s)
+				vers = append(vers, fmt.Sprintf("(%d, [%s])", k, strings.Join(bs, ", ")))
 			}
 		}
 	}
@@ -145,7 +154,7 @@ func factsCodec(repo string, o *out) {
 		die("SupportedVersions not found")
 	}
 	sort.Strings(vers)
-	o.def("supportedVersions", "List (Nat × String)", "["+strings.Join(vers, ", ")+"]")
+	o.def("supportedVersions", "List (Nat × List UInt8)", "["+strings.Join(vers, ", ")+"]")
 
 	// header.msglen thresholds
 	ths := comparisons(findFunc(fh, "header", "msglen"), "h.remlen", token.LEQ)
